@@ -231,6 +231,21 @@ func TestCheck(t *testing.T) {
 
 	r.ColdPhase(coldFirst)
 
+	r.Phase("A1: 6,000,000 consecutive draws from one goroutine: version and variant of every one (no duplicate search)", func() {
+		r.Serial(func(w *vkit.W) {
+			const n = 6000000
+			for i := 0; i < n; i++ {
+				id := uu.RandomID()
+				if id.Higher>>12&0xf != 4 || id.Lower>>62 != 2 {
+					w.Fail(Case{Goroutines: 1, Draws: n, Procs: runtime.GOMAXPROCS(0), Yield: []uint64{0}}, "variant", fmt.Sprintf("draw %d of one goroutine: %v has version nibble %x and variant bits %02b", i, id, id.Higher>>12&0xf, id.Lower>>62))
+					break
+				}
+			}
+			w.EvalRandom(vkit.HashU(n, 2), false)
+			w.ClassN("ids_drawn", n)
+		})
+	})
+
 	if r.Thorough() {
 		// a long run from one goroutine: 80 million draws, duplicates found exactly by sorting the 128-bit values
 		nLong := 80_000_000
